@@ -81,6 +81,12 @@ CHECKS['C19'] = dict(
          'and one real metaclass registration step keeps earlier entries and adds the new class iff no entry has its (module, name).',
     note='Trusted: z3 strings; S-load stub (import machinery outside); counterexamples replayed with concrete strings on the real constructor.',
     ref='DESIGN.md §3 C19')
+CHECKS['C20'] = dict(
+    technique='symbolic execution of every params.*.clean on symbolic ints/floats/strings (z3 Int/Real/String; int()/float() as documented literal grammars) and structured raw values; type, repeatability, idempotence and purity obligations decided by z3',
+    text='Bounded symbolic model checking of the real clean() methods: 17 parameter configurations x 20 raw-value kinds (symbolic numbers, symbolic strings incl. integer-/decimal-/boolean-text and absolute/relative paths, lists, nested lists, dicts, None, command objects, result names, types), with and without a working directory. '
+         'Obligations: returns a value of the documented type or raises the parameter error (no other exception), clean(v) twice equal, clean(clean(v)) unchanged, raw argument and program unaltered; violations replayed with concrete values.',
+    note='Trusted: z3 (strings, regex membership); S-float/int and S-os stubs (listed in evidence); numeric value of int(text) is an uninterpreted function of the text.',
+    ref='DESIGN.md §3 C20')
 NOT_YET = {}
 ALL = ['C%02d' % i for i in range(1, 21)]
 
